@@ -35,6 +35,9 @@ pub fn test_prog(c: &ProgCase) -> Verdict {
         Ok(b) => b,
         Err(p) => return Verdict::fail(format!("reference model panicked (harness bug): {p}\n {}", show_case(c))),
     };
+    if matches!(&base, Err(RefErr::OutsideDomain)) {
+        return Verdict::discard(); // an opcode outside the classic set was computed at run time
+    }
     if let Ok(o) = &base {
         budgets.push(o.cost);
         budgets.push(o.cost.saturating_sub(1).max(1));
@@ -51,6 +54,9 @@ pub fn test_prog(c: &ProgCase) -> Verdict {
                 Err(p) => return Verdict::fail(format!("reference model panicked (harness bug): {p}")),
             }
         };
+        if matches!(&reference, Err(RefErr::OutsideDomain)) {
+            return Verdict::discard();
+        }
         let Some(im) = run_fresh(&mut i, &c.p.prog, &c.p.env, 0, budget, None) else { return Verdict::discard() };
         match (&reference, &im.out) {
             (_, Out::Panic(m)) => return Verdict::fail(format!("run_program panicked: {m}\n {}", show_case(c))),
